@@ -38,6 +38,10 @@ CHECKS = {
  'C12': dict(engine='History', design='6 (C12)', technique='TLA+ spec History.tla (reset discipline of one instance fed a history) enumerates the histories with TLC; each is replayed on a shared real instance and element-wise compared with fresh instances; hash-seed runs in sub-processes; recorded traces validated by TLC (HistoryTrace: Stateless, SeedFree)',
              text='Stateless for all histories of length <=2 (quick; <=3 thorough) over 14 valid and invalid MIB texts for each instance kind (parser in two dialects, symbol-table generator, JSON and pysnmp generators, MibCompiler, the same syntax tree generated twice); SeedFree for every input and backend over hash seeds {0,1,2,3,7} (quick) / 0..31 (thorough).',
              note='Trusted: TLC; the fresh-instance result is the oracle (differential), the TLA+ model contributes the history enumeration, the reset discipline and the deviation names. Generated comments (time stamp, host, user) are excluded. Other interpreters than the installed CPython are not available.'),
+
+ 'C01': dict(engine='OidTree', design='6 (C01)', technique='TLA+ spec OidTree.tla grows module sets declaration by declaration (TLC explores every shape, parent choice, spelling and insertion position) and defines the ground-truth OID GT; scenarios rendered to MIB text, compiled by the real MibCompiler with both code generators, pysnmp modules executed with the real MibBuilder; observations validated by TLC (OidTreeTrace)',
+             text='Compiles, JsonOid, PyOid, SummaryOids/Identity/Enterprise/Compliance for forests of <=3-4 declarations over 2-3 modules: every parent choice (numeric roots in three spellings, imported base node, earlier node of any module => import chains and cycles), sub-identifier spellings number / name(number), all OID-carrying kinds incl. TRAP-TYPE and conceptual tables, every declaration order; identifiers with hyphens, mixed case, Python keywords, module-scoped duplicates.',
+             note='Trusted: TLC; the renderer harness/render.py and the projection of JSON / MibBuilder symbols; SMI base modules are harness fixtures. Scope: bounded forests, quick tier replays 2500 scenarios per slice through JSON and 250 through pysnmp (seeded sample of the exported state space). Module sets with import cycles are not loaded into pysnmp (platform limit).'),
 }
 PENDING = 'check under construction in this round; will be claimed when its TLA+ spec, replay and trace validation exist'
 
@@ -53,6 +57,7 @@ m = {
              {'name': 'Searcher', 'path': 'specs/Searcher.tla', 'serves_properties': ['C10'], 'kind_free_text': 'TLA+ decision model of the file searchers over directory configurations; SearcherTrace.tla'},
              {'name': 'ReaderLookup', 'path': 'specs/ReaderLookup.tla', 'serves_properties': ['C14', 'C19'], 'kind_free_text': 'TLA+ model of which file a local/ZIP source may return for a name; ReaderLookupTrace.tla; UrlDispatch.tla'},
              {'name': 'History', 'path': 'specs/History.tla', 'serves_properties': ['C12'], 'kind_free_text': 'TLA+ model of the reset discipline of parser / generator / compiler instances; HistoryTrace.tla'},
+             {'name': 'OidTree', 'path': 'specs/OidTree.tla', 'serves_properties': ['C01'], 'kind_free_text': 'TLA+ builder of OID forests over module sets with ground-truth OID operator; OidTreeTrace.tla'},
              {'name': 'OidIndex', 'path': 'specs/OidIndex.tla', 'serves_properties': ['C18'], 'kind_free_text': 'TLA+ model of the persistent OID->module index and its merge/compaction; OidIndexTrace.tla'}],
  'checks': [], 'not_applicable': [],
  'notes': 'All checks: cwd=/verif, ./check <id> --tier quick|thorough; exit 0 pass, 1 violation (VIOLATION line), 2 machinery failure. known_findings.json lists open findings and fixed: records.',
